@@ -32,6 +32,10 @@ def _pure_arg(e):
         return all(_pure_arg(x) for x in e.elts)
     if isinstance(e, ast.Subscript):
         return _pure_arg(e.value) and _pure_arg(e.slice)
+    if isinstance(e, ast.Compare):
+        return _pure_arg(e.left) and all(_pure_arg(c) for c in e.comparators)
+    if isinstance(e, ast.BoolOp):
+        return all(_pure_arg(v) for v in e.values)
     return False
 
 
@@ -199,9 +203,113 @@ def _tuple_literal(e, consts):
     return None
 
 
+def _is_bound_method_ref(e):
+    return isinstance(e, ast.Attribute) and isinstance(e.value, ast.Name) and e.value.id == 'self'
+
+
+def _callable_vars(body):
+    """`f = self.a if c else self.b` ... `r = f(x)`  ->  `if c: r = self.a(x) else: r = self.b(x)` (and `f = self.a` -> direct calls):
+    a local that only ever names bound methods of self and is only ever called.  The selector test must be a pure expression whose
+    names are not re-bound in the block."""
+    for k, st in enumerate(body):
+        if not (isinstance(st, ast.Assign) and len(st.targets) == 1 and isinstance(st.targets[0], ast.Name)):
+            continue
+        v, name = st.value, st.targets[0].id
+        if _is_bound_method_ref(v):
+            alts = None
+        elif isinstance(v, ast.IfExp) and _is_bound_method_ref(v.body) and _is_bound_method_ref(v.orelse) and _pure_arg(v.test):
+            alts = (v.test, v.body, v.orelse)
+        else:
+            continue
+        rest = body[k + 1:]
+        uses = [n for s_ in rest for n in ast.walk(s_) if isinstance(n, ast.Name) and n.id == name]
+        calls = {id(n.func) for s_ in rest for n in ast.walk(s_) if isinstance(n, ast.Call) and isinstance(n.func, ast.Name) and n.func.id == name}
+        if not uses or any(id(u) not in calls for u in uses):
+            continue
+        if alts is not None:
+            tnames = {n.id for n in ast.walk(alts[0]) if isinstance(n, ast.Name)}
+            if any(isinstance(n, ast.Name) and isinstance(n.ctx, ast.Store) and n.id in tnames for s_ in rest for n in ast.walk(s_)):
+                continue
+        new_rest = []
+        for s_ in rest:
+            if not any(isinstance(n, ast.Name) and n.id == name for n in ast.walk(s_)):
+                new_rest.append(s_)
+            elif alts is None:
+                new_rest.append(_Subst({name: v}).visit(copy.deepcopy(s_)))
+            else:
+                a = _Subst({name: alts[1]}).visit(copy.deepcopy(s_))
+                b = _Subst({name: alts[2]}).visit(copy.deepcopy(s_))
+                new_rest.append(ast.copy_location(ast.If(test=copy.deepcopy(alts[0]), body=[a], orelse=[b]), s_))
+        return _callable_vars(body[:k] + new_rest)
+    return body
+
+
+def _is_private_helper_call(methods, c, stop):
+    f = c.func
+    if isinstance(f, ast.Name):
+        return ('func:' + f.id) in methods and f.id.startswith('_') and not f.id.startswith('__') and f.id not in stop
+    return isinstance(f, ast.Attribute) and isinstance(f.value, ast.Name) and f.value.id == 'self' and f.attr in methods \
+        and f.attr.startswith('_') and not f.attr.startswith('__') and f.attr not in stop
+
+
+def _hoist_nested(methods, body, stop):
+    """(structure-only mode) a private-helper call nested inside a larger expression of a simple statement is bound to a temporary
+    first, so that it can be inlined like a statement-level call:  x = self._h(a).data  ->  t = self._h(a); x = t.data"""
+    out = []
+    for st in body:
+        v = st.value if isinstance(st, (ast.Assign, ast.Return, ast.Expr)) else None
+        if v is not None:
+            pre = []
+            while True:
+                nested = [c for c in ast.walk(v) if isinstance(c, ast.Call) and c is not v and _is_private_helper_call(methods, c, stop)]
+                # innermost first; never out of a lambda / comprehension / conditional branch (it may not be evaluated there)
+                guarded = {id(c) for g in ast.walk(v) if isinstance(g, (ast.Lambda, ast.ListComp, ast.GeneratorExp, ast.SetComp, ast.DictComp, ast.IfExp, ast.BoolOp))
+                           for c in ast.walk(g) if c is not g}
+                nested = [c for c in nested if id(c) not in guarded and not any(isinstance(x, ast.Call) and x is not c and _is_private_helper_call(methods, x, stop)
+                                                                                  for x in ast.walk(c))]
+                if not nested:
+                    break
+                c = nested[0]
+                nm = '__h%d' % next(_counter)
+                pre.append(ast.copy_location(ast.Assign(targets=[ast.Name(id=nm, ctx=ast.Store())], value=c, lineno=st.lineno, col_offset=0), st))
+
+                class R(ast.NodeTransformer):
+                    def visit_Call(self_, n):
+                        if n is c:
+                            return ast.copy_location(ast.Name(id=nm, ctx=ast.Load()), n)
+                        return self_.generic_visit(n)
+                v = R().visit(v)
+            if pre:
+                st = copy.copy(st)
+                st.value = v
+                out.extend(pre)
+        out.append(st)
+    return out
+
+
+def _lower_ifexp(body):
+    """`x = a if c else f()` / `return a if c else f()`  ->  if c: x = a  else: x = f()   (only when a branch makes a call and the
+    test is pure): path-sensitive analyses then see that the call is made on one side only."""
+    out = []
+    for st in body:
+        v = st.value if isinstance(st, (ast.Assign, ast.Return, ast.Expr)) else None
+        if isinstance(v, ast.IfExp) and _pure_arg(v.test) and any(isinstance(n, ast.Call) for br in (v.body, v.orelse) for n in ast.walk(br)) \
+                and not (isinstance(st, ast.Assign) and any(isinstance(n, ast.Name) and n.id in {m.id for m in ast.walk(v.test) if isinstance(m, ast.Name)}
+                                                            for t in st.targets for n in ast.walk(t))):
+            a, b = copy.copy(st), copy.copy(st)
+            a.value, b.value = v.body, v.orelse
+            out.append(ast.copy_location(ast.If(test=v.test, body=[a], orelse=[b]), st))
+        else:
+            out.append(st)
+    return out
+
+
 def flatten_body(methods, body, depth=3, consts=None, stop=(), ho_only=False, impure=False):
     consts = dict(consts or {})
     out = []
+    body = _lower_ifexp(_callable_vars(list(body)))
+    if impure and depth > 0:
+        body = _hoist_nested(methods, body, stop)
     for st in body:
         if isinstance(st, ast.Assign) and len(st.targets) == 1 and isinstance(st.targets[0], ast.Name) and isinstance(st.value, (ast.Tuple, ast.List)) \
                 and all(_pure_arg(x) for x in st.value.elts):
@@ -211,7 +319,7 @@ def flatten_body(methods, body, depth=3, consts=None, stop=(), ho_only=False, im
             rep = _inline_call(methods, st.value, 'stmt', None, depth, stop, ho_only, impure)
         elif isinstance(st, ast.Return) and isinstance(st.value, ast.Call):
             rep = _inline_call(methods, st.value, 'return', None, depth, stop, ho_only, impure)
-        elif isinstance(st, ast.Assign) and len(st.targets) == 1 and isinstance(st.value, ast.Call) and isinstance(st.targets[0], (ast.Name, ast.Attribute)):
+        elif isinstance(st, ast.Assign) and len(st.targets) == 1 and isinstance(st.value, ast.Call) and isinstance(st.targets[0], (ast.Name, ast.Attribute, ast.Tuple)):
             rep = _inline_call(methods, st.value, 'assign', st.targets[0], depth, stop, ho_only, impure)
         if rep is not None:
             out.extend(rep)
@@ -253,9 +361,20 @@ def flatten_body(methods, body, depth=3, consts=None, stop=(), ho_only=False, im
             st = copy.copy(st)
             st.body = flatten_body(methods, st.body, depth, consts, stop, ho_only, impure)
             st.orelse = flatten_body(methods, st.orelse, depth, consts, stop, ho_only, impure)
-        elif isinstance(st, (ast.For, ast.While)):
+        elif isinstance(st, (ast.For, ast.While, ast.With)):
             st = copy.copy(st)
             st.body = flatten_body(methods, st.body, depth, consts, stop, ho_only, impure)
+        elif isinstance(st, ast.Try):
+            st = copy.copy(st)
+            st.body = flatten_body(methods, st.body, depth, consts, stop, ho_only, impure)
+            st.orelse = flatten_body(methods, st.orelse, depth, consts, stop, ho_only, impure)
+            st.finalbody = flatten_body(methods, st.finalbody, depth, consts, stop, ho_only, impure)
+            hs = []
+            for h in st.handlers:
+                h = copy.copy(h)
+                h.body = flatten_body(methods, h.body, depth, consts, stop, ho_only, impure)
+                hs.append(h)
+            st.handlers = hs
         out.append(st)
     return out
 
